@@ -699,7 +699,16 @@ func (r *runner) scenario(ctx context.Context, rnd *hx.Rand, bc *beacon, client 
 					}
 				}
 			}
-			msg := keysMsg(uint64(eon), uint64(p), slot, kk, true)
+			// the keys may belong to an earlier slot than the trigger in flight (they arrive late) or to a later one
+			ms := slot
+			switch {
+			case rnd.Chance(35) && slot > 4:
+				ms = slot - uint64(1+rnd.Intn(3))
+				r.res.Count("keys-received-for-an-earlier-slot")
+			case rnd.Chance(10):
+				ms = slot + uint64(1+rnd.Intn(2))
+			}
+			msg := keysMsg(uint64(eon), uint64(p), ms, kk, true)
 			pre := a.db().Clone().(*kdb.DB)
 			if _, err := a.handler.HandleMessage(ctx, msg); err != nil {
 				return fmt.Errorf("HandleMessage: %w", err)
